@@ -16,6 +16,9 @@ pub struct Rule {
     pub r: Pat,
     /// condition: slot `.0` must not be free in the binding of variable `.1`
     pub cond: Option<(S, u32)>,
+    /// a second conjunct; rules with two conjuncts are built with the crate's own
+    /// Rewrite::new_if / and / not / slot_free_in combinators
+    pub cond2: Option<(S, u32)>,
 }
 
 fn v(i: u32) -> Pat {
@@ -43,10 +46,13 @@ fn var(x: S) -> Pat {
 /// pattern slots used by the rules (bound names)
 pub const X: S = 90;
 pub const Y: S = 91;
+/// free pattern slots
+pub const FS: S = 92;
+pub const FT: S = 93;
 
 pub fn rule_pool(p: u32) -> Vec<Rule> {
-    let r = |name: &'static str, l: Pat, r: Pat| Rule { name, l, r, cond: None };
-    let rc = |name: &'static str, l: Pat, r: Pat, c: (S, u32)| Rule { name, l, r, cond: Some(c) };
+    let r = |name: &'static str, l: Pat, r: Pat| Rule { name, l, r, cond: None, cond2: None };
+    let rc = |name: &'static str, l: Pat, r: Pat, c: (S, u32)| Rule { name, l, r, cond: Some(c), cond2: None };
     vec![
         r("add-comm", n2("add", v(0), v(1)), n2("add", v(1), v(0))),
         r("add-assoc", n2("add", n2("add", v(0), v(1)), v(2)), n2("add", v(0), n2("add", v(1), v(2)))),
@@ -79,6 +85,11 @@ pub fn rule_pool(p: u32) -> Vec<Rule> {
         // substitution form b[x := t]
         r("let-subst", let_(X, v(0), v(1)), Pat::Subst(Box::new(v(0)), Box::new(var(X)), Box::new(v(1)))),
         r("let-intro", n2("add", v(0), v(0)), let_(X, n2("add", var(X), var(X)), v(0))),
+        // two side conditions (crate combinators): sum over x of (a + b) with x in neither is p*(a+b) = 0
+        Rule { name: "sum-const-add", l: sum(X, n2("add", v(0), v(1))), r: num(0), cond: Some((X, 0)), cond2: Some((X, 1)) },
+        // a free pattern slot that occurs twice: (a + x) - x = a
+        r("add-sub-var", n2("add", n2("add", v(0), var(FS)), n1("neg", var(FS))), v(0)),
+        r("mul-var-comm", n2("mul", var(FS), var(FT)), n2("mul", var(FT), var(FS))),
     ]
 }
 
@@ -193,7 +204,8 @@ pub fn instance_of_left(rule: &Rule, rng: &mut Rng, slots: &[S], binder: &mut S)
     for (var, scope) in &scopes {
         let mut sl: Vec<S> = slots.to_vec();
         sl.extend(scope.iter().copied());
-        if let Some((x, cv)) = rule.cond {
+        for c in [rule.cond, rule.cond2].into_iter().flatten() {
+            let (x, cv) = c;
             if cv == *var {
                 sl.retain(|s| *s != x);
             }
@@ -223,7 +235,8 @@ pub fn validate_pool(p: u32, n: usize, seed: u64) -> Result<(), String> {
                 slots.extend(scope.iter().copied());
                 let d = rng.below(3);
                 let mut t = random_la(&mut rng, &slots, d, &mut binder);
-                if let Some((x, cv)) = rule.cond {
+                for c in [rule.cond, rule.cond2].into_iter().flatten() {
+                    let (x, cv) = c;
                     if cv == *var {
                         // respect the side condition: the slot must not be free
                         let ok: Vec<S> = slots.iter().copied().filter(|s| *s != x).collect();
@@ -260,6 +273,14 @@ pub struct RuleHooks {
 pub fn make_rewrite<N: Analysis<LA> + 'static>(rule: &Rule, nm: &mut Naming, probe: Option<std::rc::Rc<dyn Fn(&EGraph<LA, N>, &Subst)>>, on_search: Option<std::rc::Rc<dyn Fn()>>) -> Rewrite<LA, N> {
     let l: Pattern<LA> = rule.l.to_pattern::<LA>(nm);
     let r: Pattern<LA> = rule.r.to_pattern::<LA>(nm);
+    if let (Some((s1, v1)), Some((s2, v2))) = (rule.cond, rule.cond2) {
+        // built entirely by the crate: string patterns, Rewrite::new_if, and / not / slot_free_in
+        let n1 = nm.slot(s1).to_string()[1..].to_string();
+        let n2 = nm.slot(s2).to_string()[1..].to_string();
+        let c1 = slot_free_in::<LA, N>(&n1, &pvar_name(v1));
+        let c2 = not(not(slot_free_in::<LA, N>(&n2, &pvar_name(v2))));
+        return Rewrite::new_if(rule.name, &l.to_string(), &r.to_string(), and(c1, c2));
+    }
     let l2 = l.clone();
     let name = rule.name.to_string();
     let cond: Option<(Slot, String)> = rule.cond.map(|(s, v)| (nm.slot(s), pvar_name(v)));
